@@ -635,7 +635,7 @@ func (state *BuildState) forwardResults() {
 			log.Debug("%s", r)
 		}
 	}()
-	activeTargets := map[*BuildTarget]struct{}{}
+	activeTargets := map[BuildLabel]struct{}{}
 	// Persist this one timer throughout so we don't generate bazillions of them.
 	t := time.NewTimer(cycleCheckDuration)
 	t.Stop()
@@ -658,12 +658,12 @@ func (state *BuildState) forwardResults() {
 		} else {
 			result = <-state.progress.internalResults
 		}
-		if target := result.target; target != nil {
-			if result.Status.IsActive() {
-				activeTargets[target] = struct{}{}
-			} else {
-				delete(activeTargets, target)
-			}
+		// N.B. Failures are logged by label only (they carry no target) but they finish a target too;
+		//      if it stayed in here we would never look for cycles again.
+		if !result.Status.IsActive() {
+			delete(activeTargets, result.Label)
+		} else if result.target != nil {
+			activeTargets[result.Label] = struct{}{}
 		}
 		state.progress.mutex.Lock()
 		if state.progress.results != nil {
